@@ -382,7 +382,19 @@ func (e *specEnv) evalSel(n *ESel) sv {
 		for i := 0; i < st.NumFields(); i++ {
 			if st.Field(i).Name() == n.Name {
 				a := c.fieldAddr(c.addrOfPtr(b.t, pt.Elem()), i)
-				return sv{c.load(a), st.Field(i).Type()}
+				t := c.load(a)
+				// state invariant: a stored string or slice is a valid value of its type
+				if !strings.Contains(t, "!q") {
+					switch types.Unalias(st.Field(i).Type()).Underlying().(type) {
+					case *types.Basic:
+						if isStrT(st.Field(i).Type()) {
+							c.assume(lt(app("slen", t), maxLenS))
+						}
+					case *types.Slice:
+						c.assume(app("validSlice", t))
+					}
+				}
+				return sv{t, st.Field(i).Type()}
 			}
 		}
 		specFail("no field %s in %s", n.Name, pt.Elem())
@@ -457,6 +469,29 @@ func (e *specEnv) evalCall(n *ECall) sv {
 	case "bigval":
 		need(1)
 		return sv{sel(c.bigHeap(), args()[0].t), tInt}
+	case "out":
+		// ghost: everything written so far to a writer / buffer (by object identity)
+		need(1)
+		a := args()[0]
+		h := c.heapGet("GH_out", "(Array Int Str)")
+		return sv{sel(h, c.writerKey(a)), tStr}
+	case "str1":
+		need(1)
+		return sv{app("str1", args()[0].t), tStr}
+	case "rep":
+		need(2)
+		as := args()
+		return sv{app("srep", as[0].t, as[1].t), tStr}
+	case "bytestr":
+		need(1)
+		a := args()[0]
+		st, ok := types.Unalias(a.ty).Underlying().(*types.Slice)
+		if !ok {
+			specFail("bytestr of non-slice")
+		}
+		hn, hs := c.elemHeap(st.Elem())
+		h := c.heapGet(hn, hs)
+		return sv{app("str_of_bytes", sel(h, app("s-arr", a.t)), app("s-off", a.t), app("s-len", a.t)), tStr}
 	case "deref":
 		need(1)
 		a := args()[0]
@@ -631,5 +666,17 @@ func (c *FnCtx) refOf(a sv) string {
 		return a.t
 	}
 	specFail("ref of %s", a.ty)
+	return ""
+}
+
+// writerKey: the identity under which the ghost output of a writer is kept.
+func (c *FnCtx) writerKey(a sv) string {
+	if isInterface(a.ty) {
+		return app("vpay", a.t)
+	}
+	if _, ok := types.Unalias(a.ty).Underlying().(*types.Pointer); ok {
+		return a.t
+	}
+	specFail("out() of %s", a.ty)
 	return ""
 }
